@@ -25,7 +25,16 @@ def main():
     out = '%s/out' % wt
     patch = '%s/patch%s.diff' % (out, k)
     meta = json.load(open('%s/meta%s.json' % (out, k)))
+    prev_meta = '%s/seeded/%s-%s/meta.json' % (V, pid, k)
+    prev = json.load(open(prev_meta)) if (skip_confirm and os.path.exists(prev_meta)) else {}
     rec = {'seed': '%s-%s' % (pid, k), 'property': pid, 'what_breaks': meta.get('what_breaks'), 'needs_to_manifest': meta.get('needs_to_manifest'), 'ran': []}
+    for kk in ('confirmed', 'demo_clean_rc', 'demo_patched_rc', 'tests_with_patch', 'demo_cmd'):
+        if kk in prev:
+            rec[kk] = prev[kk]
+    if prev.get('ran'):
+        rec['ran'] = [x for x in prev['ran'] if x.startswith('scratch worktree')]
+    if prev.get('detection'):
+        rec['earlier_detection_before_check_was_strengthened'] = {p: {'rc': v['rc'], 'violations': v['violations']} for p, v in prev['detection'].items()}
     cmd = meta.get('build_and_run')
     if isinstance(cmd, list):
         cmd = '\n'.join(cmd)
